@@ -919,8 +919,12 @@ func extractLocks(repo string, o *out) {
 		o.lines = append(o.lines, fmt.Sprintf("def initStreamTestAndSetAtomic : Bool := %v",
 			testAndSetOneRegion(funcDeclRecv(inf, "initStream"), "cs", "cs", "ClientStream", true)))
 		bf := parse(filepath.Join(repo, "grpcgcp/gcp_balancer.go"))
+		rf := funcDeclRecv(bf, "refreshLocked") // (the body of refresh / refreshSince, both of which hold gb.mu throughout)
+		if rf == nil {
+			rf = funcDeclRecv(bf, "refresh")
+		}
 		o.lines = append(o.lines, fmt.Sprintf("def refreshTestAndSetAtomic : Bool := %v",
-			testAndSetOneRegion(funcDeclRecv(bf, "refresh"), "ref.mu", "ref", "refreshing", false)))
+			testAndSetOneRegion(rf, "ref.mu", "ref", "refreshing", false)))
 	}
 	// C01 / C07 (F22): the Done callback built by Pick does not read the channel's SubConn itself (it would do so
 	// before the balancer lock is taken, and a refresh swaps the SubConn under that lock): it hands the subConnRef to
@@ -971,6 +975,23 @@ func extractLocks(repo string, o *out) {
 		for _, fn := range []string{"UpdateClientConnState", "UpdateSubConnState", "refresh"} {
 			ok = ok && holdsLockThroughout(funcDeclRecv(bf, fn), "gb.mu")
 		}
+		if fd := funcDeclRecv(bf, "refreshSince"); fd != nil {
+			ok = ok && holdsLockThroughout(fd, "gb.mu")
+		}
+		// the picker starts a refresh through refreshSince (its decision is re-validated under the lock, F28)
+		pf2 := parse(filepath.Join(repo, "grpcgcp/gcp_picker.go"))
+		plain := 0
+		if du := funcDeclRecv(pf2, "detectUnresponsive"); du != nil {
+			ast.Inspect(du.Body, func(n ast.Node) bool {
+				if call, isCall := n.(*ast.CallExpr); isCall {
+					if se, isSel := call.Fun.(*ast.SelectorExpr); isSel && se.Sel.Name == "refresh" {
+						plain++
+					}
+				}
+				return true
+			})
+		}
+		o.lines = append(o.lines, fmt.Sprintf("def detectorRefreshesUnvalidated : Nat := %d", plain))
 		o.lines = append(o.lines, fmt.Sprintf("def balancerCallbacksHoldLock : Bool := %v", ok))
 	}
 	// round-robin cursor (C09): rrRefId is advanced only by `atomic.AddUint32(&….rrRefId, 1)`
